@@ -275,7 +275,7 @@ def check_one(item):
             obs.append(Obligation("C10", k10, "embed/site", fi.short, PROVED if v == "yes" else REFUTED,
                                   detail=f"{func_short} renders {rk} with {flag}={want} (position table)",
                                   reason="" if v == "yes" else f"{flag} at this site is not provably {want}",
-                                  witness={"family": "call", "oracle": "position_site",
+                                  witness={"family": "call", "oracle": "position_site", "no_crosscheck": True,
                                            "args": [func_short, ci.short, rk, flag, want]}))
         if v == "yes":
             obs.append(Obligation(prop, key, kind, fi.short, PROVED,
